@@ -336,6 +336,9 @@ func (tc *typechecker) checkShortVariableDeclaration(node *ast.Assignment) {
 			expr := subExpr(nodeRhs[i], j == 0)
 			switch {
 			case isBlankIdentifier(node.Lhs[i]):
+				if ti.Nil() { // _, v := nil, 0
+					panic(tc.errorf(expr, "use of untyped nil"))
+				}
 				if ti.IsConstant() {
 					tc.mustBeAssignableTo(ti, expr, ti.Type, false, nil)
 					ti.setValue(nil)
